@@ -70,7 +70,7 @@ def to_neutral(hz, v):
     if isinstance(v, list):
         return ('list', [to_neutral(hz, x) for x in v])
     if isinstance(v, hz.Grid):
-        return ('grid', str(v.version), [(k, to_neutral(hz, x)) for k, x in v.metadata.items()],
+        return ('grid', type(v.version).__str__(v.version), [(k, to_neutral(hz, x)) for k, x in v.metadata.items()],
                 [(c, [(k, to_neutral(hz, x)) for k, x in v.column[c].items()]) for c in v.column.keys()],
                 [[to_neutral(hz, r.get(c)) for c in v.column.keys()] for r in v])
     if isinstance(v, dict):
@@ -148,6 +148,14 @@ def same(a, b, opts=None):
                     return False
             elif tz is None:
                 return False
+            else:
+                # a value with a foreign (fixed-offset) tzinfo: the zone written must have that offset at that instant
+                import pytz
+                cands = [n for n in pytz.all_timezones if n == tz or n.endswith('/' + tz)]
+                if not cands:
+                    return False
+                if not any(d.astimezone(pytz.timezone(n)).utcoffset() == d.utcoffset() for n in cands):
+                    return False
         return True
     if ta == 'coordval':
         if tb != 'coord':
@@ -188,9 +196,9 @@ def same(a, b, opts=None):
             return False
         return b_and(*[same(v1, d2[k1], opts) for k1, v1 in a[1]])
     if ta == 'grid':
-        if plain(a[1]) != plain(b[1]) or len(a[2]) != len(b[2]) or len(a[3]) != len(b[3]) or len(a[4]) != len(b[4]):
+        if len(a[2]) != len(b[2]) or len(a[3]) != len(b[3]) or len(a[4]) != len(b[4]):
             return False
-        out = []
+        out = [txt_same(a[1], b[1])]
         for (k1, v1), (k2, v2) in zip(a[2], b[2]):
             out += [txt_same(k1, k2), same(v1, v2, opts)]
         for (c1, m1), (c2, m2) in zip(a[3], b[3]):
